@@ -99,10 +99,53 @@ const LEVELS: [log::Level; 5] = [log::Level::Error, log::Level::Warn, log::Level
 const FILTERS: [LevelFilter; 6] =
     [LevelFilter::OFF, LevelFilter::ERROR, LevelFilter::WARN, LevelFilter::INFO, LevelFilter::DEBUG, LevelFilter::TRACE];
 
+/// First use of the bridge's per-level tables from several threads at once, before the main
+/// thread has touched them.  The threads share nothing but the library after the barrier (each
+/// has its own collector with its own storage), so an initialisation that is not properly
+/// published shows as a data race under Miri.  Returns the number of mismatches.
+fn race_first_use(seed: u64) -> u64 {
+    use std::sync::{Arc, Barrier};
+    let nthreads = 3usize;
+    let barrier = Arc::new(Barrier::new(nthreads));
+    let mut hs = vec![];
+    for t in 0..nthreads {
+        let barrier = barrier.clone();
+        hs.push(std::thread::spawn(move || {
+            static GOTS: [Mutex<Vec<Got>>; 3] = [Mutex::new(Vec::new()), Mutex::new(Vec::new()), Mutex::new(Vec::new())];
+            let got: &'static Mutex<Vec<Got>> = &GOTS[t];
+            let d = Dispatch::new(Col { thresh: 5, targets: POOL.iter().map(|s| s.to_string()).collect(), hint: None, got });
+            let mut bad = 0u64;
+            dispatch::with_default(&d, || {
+                barrier.wait();
+                for k in 0..5usize {
+                    let level = (k * (t + 1) + t + seed as usize) % 5;
+                    let target = POOL[(t + k) % POOL.len()];
+                    let mut b = log::Record::builder();
+                    b.level(LEVELS[level]).target(target).line(Some(7 + k as u32));
+                    let r = b.args(format_args!("first use {}", 1)).build();
+                    let _ = tracing_log::format_trace(&r);
+                    let g: Vec<Got> = std::mem::take(&mut *got.lock().unwrap());
+                    let ok = g.len() == 1 && g[0].is_log && g[0].level == level + 1 && g[0].target == target && g[0].line == Some(7 + k as u32) && g[0].message.as_deref() == Some("first use 1");
+                    if !ok {
+                        bad += 1;
+                        println!("C18-MISMATCH (first use from thread {t}) level={} target={target:?} got={g:?}", level + 1);
+                    }
+                }
+            });
+            bad
+        }));
+    }
+    hs.into_iter().map(|h| h.join().unwrap_or(1)).sum()
+}
+
 fn main() {
     let a: Vec<String> = std::env::args().collect();
     let seed: u64 = a.get(1).and_then(|s| s.parse().ok()).unwrap_or(1);
     let n: u64 = a.get(2).and_then(|s| s.parse().ok()).unwrap_or(200);
+    let race_bad = race_first_use(seed);
+    if race_bad > 0 {
+        std::process::exit(3);
+    }
     let mut rng = Rng(seed ^ 0xC18);
     let tracer = LogTracer::new();
     let logger: &dyn log::Log = &tracer;
